@@ -91,7 +91,10 @@ def _step(draw):
                 warm=draw(st.sampled_from([None, None, 40.0, 0.025, 1.0])), inplace=draw(st.booleans()),
                 # lambda = -+1 exactly, and for a negative step (lambda = +1) the test equation written as `return y`: the function
                 # hands back the array it was given
-                unit_rate=unit_rate)
+                unit_rate=unit_rate,
+                # the step is handed over as ONE 0-d array: a warm-up step is taken with a tenth of it, the array is scaled in
+                # place (h *= 10, what `system.dt *= 10` does) and the judged step gets the same object
+                inplace_h=draw(st.sampled_from([False, False, False, True])))
 
 
 def parts(tier):
@@ -218,8 +221,24 @@ def _check_step(case):
             consts = {"k": 1.0}
         if not np.all(np.isfinite(y0)) or float(np.linalg.norm(y0)) == 0.0 or float(np.linalg.norm(y0)) > 1e100:
             return [], dict(nontrivial=False, labels=labels + ["warm_state_degenerate"])
+    h_arg = np.float64(h)
+    if case.get("inplace_h"):
+        h_arg = np.array(h / 16.0, dtype=np.float64)
+        try:
+            _, (dT0, dY0) = integ(rhs, t_start, y0, consts, h_arg)
+            y0 = y0 + np.asarray(dY0, dtype=np.float64)
+            t_start = t_start + dT0
+            h_arg *= 16.0
+            labels.append("step_array_scaled_in_place_between_two_calls")
+        except Exception as e:
+            if exc_origin(e)[0] == "harness":
+                raise
+            integ = M.get(name)(sys_dim=y0.shape, dtype=np.float64, rtol=tol, atol=tol * ysc)
+            h_arg = np.float64(h)
+        if not np.all(np.isfinite(y0)) or float(np.linalg.norm(y0)) == 0.0:
+            return [], dict(nontrivial=False, labels=labels + ["warm_state_degenerate"])
     try:
-        _, (dT, dY) = integ(rhs, t_start, y0, consts, np.float64(h))
+        _, (dT, dY) = integ(rhs, t_start, y0, consts, h_arg)
     except FailedToMeetTolerances:
         return [], dict(nontrivial=False, labels=labels + ["reported_failure"])
     except Exception as e:
